@@ -102,6 +102,11 @@ pub fn gen_params(r: &mut Rng) -> (String, Parameters) {
         p.c2 = r.range(0.2, 1.2);
         p.c3 = r.range(0.2, 1.2);
         p.c4 = if r.chance(0.1) { 0.0 } else { r.range(0.02, 0.4) };
+        // lengths of the "wrong" sign: the formulas are written with atan2 and must not assume positive lengths
+        if r.chance(0.12) { p.c3 = -p.c3; fam = "random-geometry/neg-c3".into(); }
+        else if r.chance(0.08) { p.c4 = -p.c4; fam = "random-geometry/neg-c4".into(); }
+        else if r.chance(0.08) { p.c1 = -p.c1; fam = "random-geometry/neg-c1".into(); }
+        else if r.chance(0.08) { p.c2 = -p.c2; fam = "random-geometry/neg-c2".into(); }
     }
     let _ = name;
     (fam, p)
@@ -137,11 +142,26 @@ pub struct KSpec {
     pub stack: Vec<Wrap>,
 }
 
+/// A `Constraints` value for the limits (f, t): built directly, or reached through `update_range` from an object with
+/// other limits (both sides changed, only `to` changed, only `from` changed, two updates in a row). The history is
+/// chosen from the bits of the limits, so a case line always rebuilds the same object; the result must not depend on it.
+pub fn make_constraints(f: &Joints, t: &Joints, w: f64) -> Constraints {
+    let mode = (f[0].to_bits() ^ t[1].to_bits().rotate_left(7) ^ f[4].to_bits().rotate_left(13)) % 8;
+    let shift = |x: &Joints, d: f64| -> Joints { let mut y = *x; for k in 0..6 { if y[k].is_finite() { y[k] += d * (1.0 + k as f64 * 0.1); } } y };
+    match mode {
+        0..=3 => Constraints::new(*f, *t, w),
+        4 => { let mut c = Constraints::new(shift(f, -0.4), shift(t, 0.3), w); c.update_range(*f, *t); c }
+        5 => { let mut c = Constraints::new(*f, shift(t, -0.35), w); c.update_range(*f, *t); c }
+        6 => { let mut c = Constraints::new(shift(f, 0.45), *t, w); c.update_range(*f, *t); c }
+        _ => { let mut c = Constraints::new(shift(f, 0.2), shift(t, 0.2), w); c.update_range(shift(f, -0.7), *t); c.update_range(*f, *t); c }
+    }
+}
+
 impl KSpec {
     pub fn bare(p: Parameters) -> Self { KSpec { p, cons: None, stack: vec![] } }
     pub fn core(&self) -> OPWKinematics {
         match &self.cons {
-            Some((f, t, w)) => OPWKinematics::new_with_constraints(self.p, Constraints::new(*f, *t, *w)),
+            Some((f, t, w)) => OPWKinematics::new_with_constraints(self.p, make_constraints(f, t, *w)),
             None => OPWKinematics::new(self.p),
         }
     }
@@ -202,8 +222,24 @@ pub fn gen_stack(r: &mut Rng, depth: usize, axial: bool, allow_para: bool) -> Ve
 /// constraint families: none, wide, narrow window around `around`, wrapping, from == to on some joints
 pub fn gen_cons(r: &mut Rng, around: Option<&Joints>) -> (String, Option<([f64; 6], [f64; 6], f64)>) {
     let w = *r.pick(&[0.0, 1.0, 0.3, 0.5, 0.0]);
-    match r.below(7) {
+    match r.below(8) {
         0 => ("none".into(), None),
+        7 => {
+            // sliver arcs: limits a fraction of a nanoradian (down to one ulp) apart on some joints -- still limits
+            let c = around.cloned().unwrap_or([0.0; 6]);
+            let mut f = [0.0; 6]; let mut t = [0.0; 6];
+            for k in 0..6 { f[k] = r.range(-PI, -1.0); t[k] = r.range(1.0, PI); }
+            for _ in 0..(1 + r.below(2)) {
+                let k = r.below(6);
+                let at = if r.chance(0.5) { c[k] } else { r.range(-2.0, 2.0) };
+                let width = *r.pick(&[5e-10, 1e-12, 2e-16, 1e-16, 0.0]);
+                f[k] = at - width * 0.4;
+                t[k] = at + width * 0.6;
+                // at least one ulp wide, never equal (from == to means "no limit")
+                if !(f[k] < t[k]) { t[k] = next_up(f[k]); }
+            }
+            ("sliver".into(), Some((f, t, w)))
+        }
         1 => {
             let mut f = [0.0; 6]; let mut t = [0.0; 6];
             for k in 0..6 { f[k] = r.range(-PI, 0.0); t[k] = r.range(0.0, PI); }
@@ -242,6 +278,11 @@ pub fn gen_cons(r: &mut Rng, around: Option<&Joints>) -> (String, Option<([f64; 
             ("wrapping".into(), Some((f, t, w)))
         }
     }
+}
+
+pub fn next_up(x: f64) -> f64 {
+    if x == 0.0 { return f64::from_bits(1); }
+    if x > 0.0 { f64::from_bits(x.to_bits() + 1) } else { f64::from_bits(x.to_bits() - 1) }
 }
 
 pub fn catch<T>(f: impl FnOnce() -> T + std::panic::UnwindSafe) -> Option<T> {
